@@ -48,6 +48,26 @@ ZOO = [
     'import deal\n\n@deal.safe\ndef f():\n    assert 0x' + 'f' * 5000 + '\n    return 0o' + '7' * 6000 + '\n',
     'import deal\n\ninherit = deal.inherit\n\nclass A:\n    @deal.pre(lambda self, x: x > 0)\n    def m(self, x):\n        return x\n\nclass B(A):\n    @deal.chain(deal.inherit, deal.safe)\n    def m(self, x):\n        return x\n\nclass C(A):\n    @inherit\n    def m(self, x):\n        return x\n\n@deal.chain(deal.inherit, deal.pure)\ndef loose(x):\n    return x\n\n@inherit\ndef loose2(x):\n    return x\n',
     'import deal\n\n@deal.raises()\ndef f():\n    raise\n    raise ValueError()()\n    raise (ValueError)\n    raise x.y.Z\n    raise lower()\n',
+    # more findings than an exit status can hold (one byte): every entry point caps at 255 instead of wrapping around to 0
+    'import deal\n' + ''.join(f'\n@deal.pure\ndef f{i}():\n    print({i})\n' for i in range(256)),
+    # the row and the column of a finding come from the same node: expressions that continue on the next line
+    'import deal\n\n@deal.raises()\ndef f(a):\n    return (a\n' + ' ' * 29 + '/ 0)\n',
+    'import deal\n\n@deal.post(lambda r: r > 0)\ndef f():\n    return (\n' + ' ' * 40 + '-1)\n\n@deal.post(lambda r: r > 0)\ndef g():\n    yield (\n' + ' ' * 40 + '-1)\n',
+    # a contract that exits when partially executed
+    'import deal\n\n@deal.post(lambda r: exit(3))\ndef f():\n    return 1\n\n@deal.pre(lambda x: exit(4))\ndef g(x):\n    return 1\n\n@deal.pure\ndef h():\n    return g(1)\n',
+    # contract dependencies that depend on each other (the order of their definitions matters: not the order of a set)
+    'import deal\nLOW = 1\nHIGH = LOW + 10\nTOP = HIGH * 2\n\n@deal.post(lambda result: LOW < result < HIGH < TOP)\ndef f():\n    return 50\n',
+    # integer literals beyond the str() conversion limit, hexadecimal: as a default, as a module-level definition, as a divisor
+    'import deal\n\n@deal.pure\ndef f(x=0x' + 'f' * 5000 + '):\n    return x\n\n@deal.pure\ndef g():\n    return f(1)\n',
+    'import deal\nBIG = 0x' + 'f' * 5000 + '\n\n@deal.post(lambda r: r < BIG)\ndef f():\n    return 1\n',
+    'import deal\n\n@deal.safe\ndef f(x):\n    return x / 0x' + 'f' * 5000 + '\n',
+    # a declared source encoding other than UTF-8 (PEP 263)
+    {'src': '# -*- coding: latin-1 -*-\nimport deal\n\n@deal.pure\ndef f():\n    print("caf\xe9")\n', 'encoding': 'latin-1'},
+]
+# contracts that come from another file (deal.inherit of a method of an imported class): every finding still lies inside the linted file
+PAIR = [
+    {'name': 'c16base.py', 'src': 'import deal\n' + '# padding\n' * 20 + '\n\nclass Base:\n    @deal.ensure(lambda self, x: x > 0)\n    @deal.example(lambda: Base().f(1) == 1)\n    @deal.post(lambda r: r != 13)\n    def f(self, x):\n        return x\n'},
+    {'name': 'c16child.py', 'src': 'import deal\nfrom c16base import Base\n\n\nclass Child(Base):\n    @deal.inherit\n    def f(self, x):\n        return 13\n'},
 ]
 
 
@@ -81,7 +101,7 @@ def sprinkle(src, rnd):
 def corpus(tier, seed):
     import sysconfig
     rnd = random.Random(seed * 13 + 16)
-    files = []
+    files = [dict(f, origin='pair') for f in PAIR]         # first: both land in the same directory
     repo = sorted(glob.glob(os.path.join(coq.REPO, 'deal', '**', '*.py'), recursive=True)) + sorted(glob.glob(os.path.join(coq.REPO, 'tests', '**', '*.py'), recursive=True))
     std = sorted(glob.glob(os.path.join(sysconfig.get_paths()['stdlib'], '*.py')))
     n_repo, n_std, n_gen = (60, 120, 400) if tier == 'thorough' else (10, 14, 60)
@@ -93,12 +113,12 @@ def corpus(tier, seed):
         files.append({'src': s, 'origin': os.path.relpath(p, '/')})
         sp = sprinkle(s, rnd)
         if sp: files.append({'src': sp, 'origin': os.path.relpath(p, '/') + ' +contracts'})
-    for z in ZOO: files.append({'src': z, 'origin': 'zoo'})
+    for z in ZOO: files.append(dict(z, origin='zoo') if isinstance(z, dict) else {'src': z, 'origin': 'zoo'})
     cdir = os.path.join(coq.VERIF, 'corpus', 'C16')
     for f in sorted(glob.glob(os.path.join(cdir, '*.py'))): files.append({'src': open(f).read(), 'origin': 'corpus/' + os.path.basename(f)})
     for i in range(n_gen):
         files.append({'src': pygen.render(pygen.gen_module(rnd)), 'origin': 'generated'})
-    for i, f in enumerate(files): f['name'] = f'm{i:04d}.py'
+    for i, f in enumerate(files): f.setdefault('name', f'm{i:04d}.py')
     return files
 
 
@@ -152,7 +172,7 @@ def run(ctx, fr, model_available=True, files=None):
     res, cli = [], []
     for i in range(0, len(files), 40):
         part = files[i:i + 40]
-        o = impl.run_impl('c16_lint.py', {'files': [{'name': f['name'], 'src': f['src']} for f in part], 'cli': True}, timeout=2400)
+        o = impl.run_impl('c16_lint.py', {'files': [{k: f[k] for k in ('name', 'src', 'encoding') if k in f} for f in part], 'cli': True}, timeout=2400)
         res += o['files']; cli.append((part, o))
     dist = {'files': len(files), 'with_findings': 0, 'findings': 0, 'invalid': 0}
     for f, r in zip(files, res):
@@ -166,7 +186,7 @@ def run(ctx, fr, model_available=True, files=None):
     # the CLI: exit status = printed findings = JSON records = API findings
     for part, o in cli:
         api = sum(len(r['as_cli'].get('findings', [])) for r in o['files'] if not r.get('invalid'))
-        for mode in ('json', 'plain'):
+        for mode in ('json', 'plain', 'alias'):
             c = o.get(mode)
             if c is None: continue
             if c['stderr'].strip() and 'Traceback' in c['stderr']:
